@@ -279,6 +279,10 @@ class C07:
     def replay(self, tree, rep, wd):
         if rep.get('kind') == 'negconst':
             return neg_replay(tree, rep, wd)
+        if rep.get('kind') == 'mustreject':
+            p = os.path.join(wd, 'rej.c'); open(p, 'w').write(rep['source'])
+            r = core.run([tree.cc, '-cc1', '-cc1-input', p, '-cc1-output', os.path.join(wd, 'rej.s'), p], timeout=20)
+            return (r.rc != 1), ('rc=%s: %s' % (r.rc, (r.err or '').strip().split('\n')[-1][:150]))
         return diffprog.replay(tree, rep, wd)
 
     def extra(self, tree, tier, stats, top):
@@ -315,9 +319,29 @@ def neg_one(tree, src, wd):
     return False, 'accepted (rc=0)'
 
 
+# constants that must be *rejected* because their value is outside what the context allows: the check has to see the full 64-bit
+# value (an index, width or alignment of 2^32 + k is not k).  A case counts only if gcc and clang both reject it.
+MUST_REJECT = ['int a[4] = {[%s] = 5};', 'int a[4] = {[1 ... %s] = 5};', 'struct S { int x : %s; };', '_Alignas(%s) char c;', 'struct S { char c; _Alignas(%s) int y; };',
+               'int f(int x) { int a[4] = {[%s] = 1}; return a[x]; }', 'struct S { unsigned long w : %s; };']
+RANGE_VALUES = ['0x100000001', '4294967296 + 2', '0x100000008', '(1L << 32) + 1', '0x8000000000000001', '-4294967295', '(1L << 40) | 2', '0x100000020']
+
+
 def negative(tree, stats, top):
     wd = os.path.join(top, 'neg'); os.makedirs(wd, exist_ok=True)
     viols = []
+    for tmpl in MUST_REJECT:
+        for v in RANGE_VALUES:
+            src = tmpl % v + '\n'
+            p = os.path.join(wd, 'rej.c'); open(p, 'w').write(src)
+            if core.run(['gcc', '-fsyntax-only', '-w', '-std=gnu11', p], timeout=20).rc == 0 or core.run(['clang', '-fsyntax-only', '-w', '-std=gnu11', p], timeout=20).rc == 0:
+                stats.count('must_reject_ref_accepts')
+                continue
+            stats.case(nt_key=('reject', tmpl, v)); stats.count('must_reject_cases')
+            r = core.run([tree.cc, '-cc1', '-cc1-input', p, '-cc1-output', os.path.join(wd, 'rej.s'), p], timeout=20)
+            if r.rc == 0 and len(viols) < 3:
+                viols.append(({'kind': 'mustreject', 'source': src, 'signature': 'rej-%s-%s' % (tmpl[:20], v)}, 'accepted although gcc and clang reject it (the value is truncated to int before it is checked): ' + src.strip()))
+            elif r.rc != 1 and len(viols) < 3:
+                viols.append(({'kind': 'mustreject', 'source': src, 'signature': 'rejcrash-%s-%s' % (tmpl[:20], v)}, 'compiler died (rc=%s) on %s' % (r.rc, src.strip())))
     for e in UB_EXPRS:
         for cn, tmpl in NEG_CTX:
             src = tmpl % e
